@@ -52,6 +52,8 @@ fn apply_op(files: &mut BTreeMap<String, Vec<u8>>, op: &JournalOp, data: Option<
 fn cuts(data: &[u8]) -> Vec<usize> {
     const HEADER: usize = 301;
     let mut v = vec![0usize, 3, 4, HEADER - 1, HEADER, HEADER + 1, HEADER + 16];
+    // the wallet file: inside / at the end of the private key, inside the public key
+    v.extend([1usize, 31, 32, 33, 64]);
     if data.len() > HEADER + 40 {
         v.push(HEADER + (data.len() - HEADER) / 3);
         v.push(HEADER + 2 * (data.len() - HEADER) / 3);
@@ -98,14 +100,35 @@ async fn boot_and_judge(h: &mut History, case: Case<'_>, rng: &mut Rng, rep: &mu
     rep.count("boots");
     rep.count(if case.clean { "boots.clean-shutdown" } else { "boots.crash" });
     let key = h.b.actors[h.cfg.replica_key].clone();
+    let replica_key = h.cfg.replica_key;
     let io = MemIo::from_files(case.files.clone());
     let mut node = Node::new(&key, &h.cfg.params, io, VClock::new(T0 + 7_200_000), vec![], "http://b.example:1");
     let wit = || {
         let mut w = witness.clone();
         w["case"] = json!(case.label);
-        w["files"] = json!(case.files.iter().filter(|(k, _)| k.starts_with(BLOCK_DIR)).map(|(k, v)| (k.clone(), v.len())).collect::<Vec<_>>());
+        w["files"] = json!(case.files.iter().map(|(k, v)| (k.clone(), hex::encode(v))).collect::<Vec<_>>());
+        w["replica_key"] = json!(replica_key);
         w
     };
+    // saito-rust's main loads the wallet file before the threads start
+    {
+        use saito_core::core::consensus::wallet::Wallet;
+        let wallet = node.wallet.clone();
+        let io = node.io.boxed();
+        let r = crate::panics::catch_async(async move {
+            let mut w = wallet.write().await;
+            Wallet::load(&mut w, io.as_ref()).await;
+        })
+        .await;
+        if let Err(p) = r {
+            rep.violation(
+                &format!("C12|clause=restart-panics|stage=wallet-load|{}", p.signature()),
+                &format!("loading the wallet file of case '{}' panicked at {}:{}: {}", case.label, p.rel_file(), p.line, p.message),
+                wit(),
+            );
+            return;
+        }
+    }
     if let Err(p) = node.init().await {
         rep.violation(
             &format!("C12|clause=restart-panics|{}", p.signature()),
@@ -150,8 +173,37 @@ async fn boot_and_judge(h: &mut History, case: Case<'_>, rng: &mut Rng, rep: &mu
         if case.clean {
             // a clean restart reconstructs the same tip and the same in-window spendable outputs
             if tip != case.mark.tip {
+                // two branches of equal length: A kept the one it saw first, B the one whose file
+                // name (timestamp-hash) sorts first
+                let tie = tip_id == case.mark.tip_id && h.b.store.has(&tip) && h.b.store.chain_valid(&tip);
+                if !tie {
+                    // diagnostics: the files B saw (in listing order) and what it made of them
+                    let mut files: Vec<String> = vec![];
+                    for (k, v) in case.files.iter().filter(|(k, _)| k.starts_with(BLOCK_DIR)) {
+                        let d = match saito_core::core::consensus::block::Block::deserialize_from_net(v) {
+                            Ok(mut b) => {
+                                let _ = b.generate();
+                                format!("{}:id{}:{}<-{}:{}", &k[BLOCK_DIR.len()..BLOCK_DIR.len() + 13], b.id, hex::encode(&b.hash[..2]), hex::encode(&b.previous_block_hash[..2]), if chain.blocks.contains_key(&b.hash) { if chain.blocks[&b.hash].in_longest_chain { "LC" } else { "held" } } else { "absent" })
+                            }
+                            Err(_) => format!("{}:undecodable", k),
+                        };
+                        files.push(d);
+                    }
+                    rep.note(&format!("clean restart differs; A's chain: {:?}; files: {:?}", h.b.store.ancestors(&case.mark.tip).iter().map(|x| hex::encode(&x[..2])).collect::<Vec<_>>(), files));
+                }
+                // B holds A's tip block and every ancestor of it, validly stored, and still prefers a
+                // shorter branch: the fork choice (longer AND at least as much burn fee, decided
+                // when a block arrives) depends on the order of arrival, and a restart replays the
+                // files in timestamp order
+                let holds_all = chain.blocks.contains_key(&case.mark.tip) && h.b.store.ancestors(&case.mark.tip).iter().rev().take(4).all(|x| chain.blocks.contains_key(x));
                 rep.violation(
-                    "C12|clause=clean-restart-tip-differs",
+                    if tie {
+                        "C12|clause=clean-restart-tip-differs|cause=equal-length-branches-load-order"
+                    } else if holds_all && tip_id < case.mark.tip_id {
+                        "C12|clause=clean-restart-tip-differs|cause=shorter-branch-kept-fork-choice-depends-on-arrival-order"
+                    } else {
+                        "C12|clause=clean-restart-tip-differs"
+                    },
                     &format!("case '{}': every storage operation had completed, yet the restarted node sits at {} ({}) instead of {} ({})", case.label, tip_id, hex::encode(&tip[..4]), case.mark.tip_id, hex::encode(&case.mark.tip[..4])),
                     wit(),
                 );
@@ -175,7 +227,7 @@ async fn boot_and_judge(h: &mut History, case: Case<'_>, rng: &mut Rng, rep: &mu
         match h.b.extend(rng, &tip, &spec).await {
             Ok(nh) => {
                 let bytes = h.b.store.get(&nh).bytes.clone();
-                let r = crate::panics::catch_async(node.add_block_direct(&bytes)).await;
+                let r = deliver(&mut node, &bytes).await;
                 rep.count("continuation_blocks_offered");
                 match r {
                     Err(p) => rep.violation(&format!("C12|clause=continuation-panics|{}", p.signature()), &format!("case '{}': adding one more honest block after restart panicked: {}", case.label, p.message), wit()),
@@ -202,6 +254,30 @@ async fn boot_and_judge(h: &mut History, case: Case<'_>, rng: &mut Rng, rep: &mu
     rep.nontrivial(&format!("{}|{}", case.label, case.files.len()));
 }
 
+/// hand a block to the node the way the verification thread does
+async fn deliver(node: &mut Node, bytes: &[u8]) -> Result<bool, crate::panics::PanicInfo> {
+    use saito_core::core::consensus::block::Block;
+    use saito_core::core::consensus_thread::ConsensusEvent;
+    use saito_core::core::process::process_event::ProcessEvent;
+    let mut block = match Block::deserialize_from_net(bytes) {
+        Ok(b) => b,
+        Err(_) => return Ok(false),
+    };
+    if block.generate().is_err() {
+        return Ok(false);
+    }
+    let r = crate::panics::catch_async(node.consensus.process_event(ConsensusEvent::BlockFetched { peer_index: 1, block })).await;
+    node.drain_side_channels();
+    while node.rx_router.try_recv().is_ok() {}
+    r.map(|_| true)
+}
+
+async fn mark_of(h: &History, a: &Node, known: &BTreeSet<Hash>) -> Mark {
+    let ops = a.io.journal_len();
+    let chain = a.chain.read().await;
+    Mark { ops, tip: chain.get_latest_block_hash(), tip_id: chain.get_latest_block_id(), known: known.clone(), utxo: in_window_utxo(&chain, h.cfg.params.gp), supply: supply(&chain, h.cfg.params.gp) }
+}
+
 async fn one_history(ctx: &Ctx, rng: &mut Rng, gp: u64, len: usize, fork_permille: u64, rep: &mut Report) {
     let mut params = Params::with_gp(gp);
     params.prune_after = 8;
@@ -210,31 +286,43 @@ async fn one_history(ctx: &Ctx, rng: &mut Rng, gp: u64, len: usize, fork_permill
     cfg.txs = (1, 3);
     let mut h = History::new(cfg).await;
     rep.count("histories");
-    let f0 = h.replica.io.files();
-    h.replica.io.set_journal(true);
+    // node A: the consensus thread's own path (add_blocks_from_mempool: block files, pruning,
+    // wallet file) over a journaling in-memory I/O
+    let key = h.b.actors[h.cfg.replica_key].clone();
+    let mut a = Node::new(&key, &h.cfg.params, MemIo::new(), VClock::new(T0 + 3_600_000), vec![], "http://a.example:1");
+    if a.init().await.is_err() {
+        rep.inconclusive("node A init panicked");
+        return;
+    }
+    let gbytes = h.b.store.get(&h.b.genesis).bytes.clone();
+    if !matches!(deliver(&mut a, &gbytes).await, Ok(true)) {
+        rep.inconclusive("node A refused the genesis block");
+        return;
+    }
+    let f0 = a.io.files();
+    a.io.set_journal(true);
     let mut marks: Vec<Mark> = vec![];
     let mut known: BTreeSet<Hash> = BTreeSet::new();
     known.insert(h.b.genesis);
-    let mark_of = |h: &History, known: &BTreeSet<Hash>| {
-        let ops = h.replica.io.journal_len();
-        let known = known.clone();
-        async move {
-            let chain = h.replica.chain.read().await;
-            Mark { ops, tip: chain.get_latest_block_hash(), tip_id: chain.get_latest_block_id(), known, utxo: in_window_utxo(&chain, h.cfg.params.gp), supply: supply(&chain, h.cfg.params.gp) }
-        }
-    };
-    marks.push(mark_of(&h, &known).await);
+    marks.push(mark_of(&h, &a, &known).await);
     let mut delivered: Vec<(usize, Hash)> = vec![];
     for _ in 0..len {
-        let before_ops = h.replica.io.journal_len();
         match h.step(rng).await {
             Ok(info) => {
-                known.insert(info.hash);
-                delivered.push((before_ops, info.hash));
-                if info.reorg {
+                let before_ops = a.io.journal_len();
+                let bytes = h.b.store.get(&info.hash).bytes.clone();
+                let before_tip = a.tip().await;
+                if !matches!(deliver(&mut a, &bytes).await, Ok(true)) {
+                    rep.inconclusive("node A panicked on an honest block");
+                    return;
+                }
+                let after_tip = a.tip().await;
+                if after_tip != before_tip && !h.b.store.is_ancestor(&before_tip.1, &after_tip.1) {
                     rep.count("history_reorgs");
                 }
-                marks.push(mark_of(&h, &known).await);
+                known.insert(info.hash);
+                delivered.push((before_ops, info.hash));
+                marks.push(mark_of(&h, &a, &known).await);
             }
             Err(e) => {
                 rep.count("history_stopped_early");
@@ -243,14 +331,14 @@ async fn one_history(ctx: &Ctx, rng: &mut Rng, gp: u64, len: usize, fork_permill
             }
         }
     }
-    let journal: Vec<JournalOp> = h.replica.io.lock().journal.clone();
+    let journal: Vec<JournalOp> = a.io.lock().journal.clone();
     rep.add("journal_ops", journal.len() as u64);
     rep.add("journal_ops.remove", journal.iter().filter(|o| o.kind == JournalKind::Remove).count() as u64);
     rep.add("history_blocks", delivered.len() as u64);
     rep.add("history_forks", h.forks_started);
     rep.max("history_tip_id", marks.last().map(|m| m.tip_id).unwrap_or(0));
     let keys: BTreeSet<String> = journal.iter().map(|o| o.key.split('/').take(3).collect::<Vec<_>>().join("/")).collect();
-    rep.note(&format!("journal touches: {:?}", keys));
+    rep.note(&format!("journal touches: {:?}; storage model measured from the real handler: write={} listing={} short-wallet={}", keys, if crate::io::io_model().0 { "temporary-file+rename" } else { "truncate-in-place" }, if crate::io::io_model().1 { "skips *.tmp" } else { "lists *.tmp" }, ["panics", "error", "ok"][crate::io::io_model().2 as usize]));
     let witness = json!({"kind": "journal-prefix", "gp": gp, "len": len, "fork_permille": fork_permille, "seed": ctx.seed, "shard": ctx.shard});
     // state of A at journal position k: the last mark whose ops <= k
     let mark_at = |k: usize| -> &Mark { marks.iter().rev().find(|m| m.ops <= k).unwrap() };
@@ -267,12 +355,27 @@ async fn one_history(ctx: &Ctx, rng: &mut Rng, gp: u64, len: usize, fork_permill
             break;
         }
         let op = journal[k].clone();
-        // --- op k torn (writes only): the file exists with a prefix of its content
-        if op.kind == JournalKind::Write && (k % torn_every == 0) {
-            for cut in cuts(&op.data) {
+        // --- op k torn (writes only). What a crash in the middle of write_value leaves behind is
+        // the measured protocol of the real handler: a prefix under the final name (in place), or
+        // a prefix under `<name>.tmp` with the final name untouched (temporary file + rename)
+        let (via_rename, _, _) = crate::io::io_model();
+        if op.kind == JournalKind::Write && (k % torn_every == 0 || op.key.ends_with("wallet")) {
+            let mut all_cuts = cuts(&op.data);
+            if via_rename {
+                // the temporary file complete, the rename not done yet
+                all_cuts.push(op.data.len());
+            }
+            for cut in all_cuts {
                 let mut f = files.clone();
-                apply_op(&mut f, &op, Some(&op.data[..cut]));
+                if via_rename {
+                    f.insert(format!("{}{}", op.key, crate::io::TMP_SUFFIX), op.data[..cut].to_vec());
+                } else {
+                    apply_op(&mut f, &op, Some(&op.data[..cut]));
+                }
                 rep.count("torn_variants");
+                if op.key.ends_with("wallet") {
+                    rep.count("torn_variants.wallet");
+                }
                 let mk = mark_at(k);
                 boot_and_judge(&mut h, Case { files: f, mark: mk, in_progress: in_progress.clone(), clean: false, label: format!("op {} ({:?} {}) torn at byte {} of {}", k, op.kind, op.key.rsplit('/').next().unwrap_or(""), cut, op.data.len()) }, rng, rep, &witness).await;
             }
@@ -281,7 +384,53 @@ async fn one_history(ctx: &Ctx, rng: &mut Rng, gp: u64, len: usize, fork_permill
     }
 }
 
+/// boot from the files of a recorded case and report what the node makes of them
+async fn replay(path: &str, rep: &mut Report) {
+    let text = std::fs::read_to_string(path).expect("replay file");
+    let v: serde_json::Value = serde_json::from_str(&text).expect("replay json");
+    let r = &v["replay"];
+    let mut files: BTreeMap<String, Vec<u8>> = BTreeMap::new();
+    for f in r["files"].as_array().cloned().unwrap_or_default() {
+        files.insert(f[0].as_str().unwrap_or("").to_string(), hex::decode(f[1].as_str().unwrap_or("")).unwrap_or_default());
+    }
+    let params = {
+        let mut p = Params::with_gp(r["gp"].as_u64().unwrap_or(10));
+        p.prune_after = 8;
+        p
+    };
+    if std::env::var("SVH_DEBUG").is_ok() {
+        crate::logsink::install_stderr(if std::env::var("SVH_DEBUG").map(|v| v == "2").unwrap_or(false) { log::LevelFilter::Debug } else { log::LevelFilter::Info });
+    }
+    let key = actors(8)[r["replica_key"].as_u64().unwrap_or(1) as usize].clone();
+    let mut node = Node::new(&key, &params, MemIo::from_files(files), VClock::new(T0 + 7_200_000), vec![], "http://b.example:1");
+    rep.eval();
+    {
+        use saito_core::core::consensus::wallet::Wallet;
+        let wallet = node.wallet.clone();
+        let io = node.io.boxed();
+        if let Err(p) = crate::panics::catch_async(async move {
+            let mut w = wallet.write().await;
+            Wallet::load(&mut w, io.as_ref()).await;
+        })
+        .await
+        {
+            rep.violation(&format!("C12|clause=restart-panics|stage=wallet-load|{}", p.signature()), &format!("replayed: {}", p.message), r.clone());
+            return;
+        }
+    }
+    if let Err(p) = node.init().await {
+        rep.violation(&format!("C12|clause=restart-panics|{}", p.signature()), &format!("replayed: {}", p.message), r.clone());
+        return;
+    }
+    let (id, h) = node.tip().await;
+    rep.note(&format!("replay ({}): restarted node sits at {} ({})", r["case"].as_str().unwrap_or(""), id, hex::encode(&h[..4])));
+}
+
 pub async fn run(ctx: &Ctx, rep: &mut Report) {
+    if let Some(path) = &ctx.replay {
+        replay(path, rep).await;
+        return;
+    }
     let mut rng = ctx.rng();
     let plans: Vec<(u64, usize, u64)> = vec![(10, 34, 150), (40, 16, 250), (10, 30, 0), (12, 40, 200), (40, 24, 0), (10, 36, 300)];
     let n = ctx.scale(8, 64);
